@@ -905,6 +905,28 @@ def c20_checks(repo: Repo, tier: str, res: CheckResult, seed: int) -> None:
                         res.add(_gen_finding("C20", "FRESH.generated-container", prog, 0, f"{var} built by {init}",
                                              f"node `{var}` is not built by a display evaluated on each call"))
     res.count("PURE.generated-programs", n, 500)
+    # mutable defaults / constants: a builtin mutable container must be rendered as a display evaluated per call, otherwise
+    # the one object of the class definition is handed to every result (loader defaults, link_constant values)
+    UT = "adaptix/_internal/code_tools/utils.py"
+    m = 0
+    for r in run_child(repo, tier, seed, "literal"):
+        if r.get("kind") != "literal" or not r.get("mutable_builtin"):
+            continue
+        m += 1
+        res.evaluated(f"G:mutable-default:{r['value_repr'][:60]}", True)
+        if r.get("expr") is not None or r.get("error"):
+            continue
+        if r.get("literal_leaves_only"):
+            res.add(Finding("C20", "FRESH.mutable-default-captured", UT, "get_literal_expr", f"{_shape(r['probe'])}"[:120],
+                            f"the mutable default `{r['value_repr'][:80]}` consists of literals only but get_literal_expr gives no "
+                            "expression for it: the generated loader captures the object of the class definition and hands the "
+                            "same container to every loaded result (results share it with each other and with the class)"))
+        else:
+            res.add(Finding("C20", "FRESH.mutable-default-captured", UT, "get_literal_expr",
+                            "mutable container with a leaf that has no literal form",
+                            f"the mutable default `{r['value_repr'][:80]}` has a leaf without literal form, so the object of the class "
+                            "definition is captured and shared by all loaded results"))
+    res.count("FRESH.mutable-default-values", m, 15)
 
 
 def _loader_fingerprint(S: LoaderSummary) -> Dict[str, Any]:
